@@ -24,13 +24,14 @@ func init() {
 		ID: "C08",
 		Meta: func(tier string) fw.Meta {
 			return fw.Meta{
-				Flavours: []string{"plain", "cover"},
-				Blocks:   16,
-				Procs:    16,
-				Rule: "case = (limit 1..40, unit sizes or a size function with sizes 0..limit+2, 2..40 keys, history of 80-600 Put/Get/Has/Remove/Clear with Remove-then-Get/Remove/Put bursts). After EVERY call: the result, Len, Size (== sum of sizes, <= limit), Has for every key, the exact eviction-callback multiset of that call with evictions in exact LRU order (order of Clear's callbacks and the position of the replaced entry's callback unconstrained), and the accounting/LRU-index hook. " +
+				Flavours:   []string{"plain", "cover"},
+				Blocks:     16,
+				Procs:      16,
+				Exhaustive: true,
+				Rule: "exhaustive part (seed-independent): a 6-entry unit-size cache over 7 keys is filled, then EVERY sequence of 4 (5 thorough) operations from {Get, Remove, Put} x 7 keys is applied, then six fresh keys evict everything and the eviction order is compared; random part: case = (limit 1..40, unit sizes or a size function with sizes 0..limit+2, 2..40 keys, history of 80-600 Put/Get/Has/Remove/Clear with Remove-then-Get/Remove/Put bursts). After EVERY call: the result, Len, Size (== sum of sizes, <= limit), Has for every key, the exact eviction-callback multiset of that call with evictions in exact LRU order (order of Clear's callbacks and the position of the replaced entry's callback unconstrained), and the accounting/LRU-index hook. " +
 					"Every history is executed as is and with the F1 counterfactual switch; a real-run violation is attributed to F1 iff it vanishes in the counterfactual run, every parent index seen was i/2 or (i-1)/2, and the cache had held >= 5 entries; a violation in a counterfactual run is a VIOLATION. " +
 					"distinct = hash(config, ops); non-trivial = the history evicted at least once and performed an access or removal after a Remove",
-				Required:     []string{"histories", "histories_ge6_entries", "evictions", "remove_then_access", "zero_size_puts", "too_large_puts", "replacing_puts", "clears", "hook_checks"},
+				Required:     []string{"exhaustive_small_histories", "histories", "histories_ge6_entries", "evictions", "remove_then_access", "zero_size_puts", "too_large_puts", "replacing_puts", "clears", "hook_checks"},
 				Assumptions:  []string{"reference model: recency list; Put and successful Get count as uses, Has does not", "known finding F1 is excused only through the counterfactual switch in heapq/verif_on.go and only when >= 5 entries were held"},
 				CoverPkgs:    []string{"github.com/creachadair/mds/cache", "github.com/creachadair/mds/heapq"},
 				CoverAnchors: []string{"cache/cache.go", "cache/lru.go", "heapq/heapq.go:pop", "heapq/heapq.go:Remove", "heapq/heapq.go:Pop", "heapq/heapq.go:Add", "heapq/heapq.go:pushUp", "heapq/heapq.go:pushDown", "heapq/heapq.go:swap"},
@@ -302,7 +303,181 @@ func c08gen(r *rand.Rand, cfg c08cfg, n int) []cop {
 	return ops
 }
 
+// c08both runs one history as is and in the counterfactual mode and reports.
+func c08both(c *fw.Ctx, cfg c08cfg, ops []cop) (st c08stats, realViolated bool) {
+	var div, cfDiv *heapDiv
+	ok, pv, stack := fw.Try(func() { div, st = c08run(c, cfg, ops, false) })
+	if !ok {
+		div = &heapDiv{Step: -1, Detail: fmt.Sprintf("panic: %v\n%s", pv, stack)}
+	}
+	ok2, pv2, stack2 := fw.Try(func() { cfDiv, _ = c08run(c, cfg, ops, true) })
+	if !ok2 {
+		cfDiv = &heapDiv{Step: -1, Detail: fmt.Sprintf("panic: %v\n%s", pv2, stack2)}
+	}
+	caseData := func(d *heapDiv) map[string]any {
+		upto := len(ops)
+		if d.Step >= 0 && d.Step < len(ops) {
+			upto = d.Step + 1
+		}
+		return map[string]any{"config": cfg, "ops": copStrings(ops[:upto])}
+	}
+	switch {
+	case cfDiv != nil:
+		c.Fail(caseData(cfDiv), "with the known F1 parent index corrected (counterfactual run), at op %d: %s", cfDiv.Step, cfDiv.Detail)
+	case div != nil && (st.odd > 0 || st.maxLen < 5):
+		c.Fail(caseData(div), "at op %d: %s (not attributable to F1: odd parent indices=%d, max entries held=%d)", div.Step, div.Detail, st.odd, st.maxLen)
+	case div != nil:
+		c.Known("F1", caseData(div), "at op %d: %s; vanishes when pushUp uses (i-1)/2", div.Step, div.Detail)
+		c.Add("real_run_violations", 1)
+	}
+	return st, div != nil
+}
+
+// c08exhaustive: a cache of 6 unit-size entries over 7 keys is filled, then
+// every sequence of up to L operations from {Get, Remove, Put} x 7 keys is
+// applied, then six fresh keys are put so that every remaining entry is
+// evicted and the eviction order is compared with the reference. This covers
+// every small "Remove, then access" shape of the recency heap, independent of
+// the seed.
+func c08exhaustive(c *fw.Ctx, base int) {
+	L := c.Pick(4, 5)
+	const keys = 7
+	nops := 3 * keys
+	total := 1
+	for i := 0; i < L; i++ {
+		total *= nops
+	}
+	const bundle = 2000
+	nb := (total + bundle - 1) / bundle
+	cfg := c08cfg{Limit: 6, Unit: true, Keys: keys + 8}
+	for bi := c.Block; bi < nb; bi += c.NBlocks {
+		if !c.Begin(base + bi) {
+			continue
+		}
+		var cnt int64
+		for x := bi * bundle; x < min(total, (bi+1)*bundle); x++ {
+			id := 0
+			var ops []cop
+			for k := 0; k < 6; k++ {
+				id++
+				ops = append(ops, cop{Op: 'P', K: k, V: CVal{ID: id, Sz: 1}})
+			}
+			y := x
+			for i := 0; i < L; i++ {
+				o := y % nops
+				y /= nops
+				k := o % keys
+				switch o / keys {
+				case 0:
+					ops = append(ops, cop{Op: 'G', K: k})
+				case 1:
+					ops = append(ops, cop{Op: 'R', K: k})
+				case 2:
+					id++
+					ops = append(ops, cop{Op: 'P', K: k, V: CVal{ID: id, Sz: 1}})
+				}
+			}
+			for k := 0; k < 6; k++ {
+				id++
+				ops = append(ops, cop{Op: 'P', K: keys + 1 + k, V: CVal{ID: id, Sz: 1}})
+			}
+			st, _ := c08both(c, cfg, ops)
+			cnt++
+			c.Add("evictions", int64(st.evictions))
+			c.Add("remove_then_access", int64(st.removeThenAccess))
+			c.Add("hook_checks", int64(st.hookChecks))
+			c.Add("replacing_puts", int64(st.replacing))
+		}
+		c.Evals(cnt - 1)
+		c.Add("exhaustive_small_histories", cnt)
+		c.Add("histories", cnt)
+		c.Add("histories_ge6_entries", cnt)
+		c.SeenEnum(cnt)
+		if c.Stopped() {
+			return
+		}
+	}
+}
+
+// c08f1witness is a recorded history on which the pinned tree evicts a
+// non-LRU victim because of known finding F1 (found by the random workload at
+// seed 1; kept here so that the KNOWN-FINDING line does not depend on the seed).
+var c08f1cfg = c08cfg{Limit: 12, Unit: true, Keys: 37}
+var c08f1witness = []cop{
+	{Op: 'G', K: 16},
+	{Op: 'G', K: 20},
+	{Op: 'H', K: 29},
+	{Op: 'G', K: 28},
+	{Op: 'H', K: 20},
+	{Op: 'G', K: 8},
+	{Op: 'H', K: 12},
+	{Op: 'G', K: 9},
+	{Op: 'H', K: 35},
+	{Op: 'G', K: 36},
+	{Op: 'G', K: 8},
+	{Op: 'G', K: 30},
+	{Op: 'G', K: 8},
+	{Op: 'G', K: 7},
+	{Op: 'G', K: 6},
+	{Op: 'G', K: 0},
+	{Op: 'G', K: 7},
+	{Op: 'P', K: 23, V: CVal{ID: 1, Sz: 1}},
+	{Op: 'P', K: 17, V: CVal{ID: 2, Sz: 1}},
+	{Op: 'P', K: 15, V: CVal{ID: 3, Sz: 1}},
+	{Op: 'P', K: 3, V: CVal{ID: 4, Sz: 1}},
+	{Op: 'P', K: 19, V: CVal{ID: 5, Sz: 1}},
+	{Op: 'P', K: 26, V: CVal{ID: 6, Sz: 1}},
+	{Op: 'P', K: 36, V: CVal{ID: 7, Sz: 1}},
+	{Op: 'P', K: 30, V: CVal{ID: 8, Sz: 1}},
+	{Op: 'P', K: 1, V: CVal{ID: 9, Sz: 1}},
+	{Op: 'P', K: 34, V: CVal{ID: 10, Sz: 1}},
+	{Op: 'P', K: 16, V: CVal{ID: 11, Sz: 1}},
+	{Op: 'P', K: 4, V: CVal{ID: 12, Sz: 1}},
+	{Op: 'P', K: 1, V: CVal{ID: 13, Sz: 1}},
+	{Op: 'P', K: 16, V: CVal{ID: 14, Sz: 1}},
+	{Op: 'P', K: 5, V: CVal{ID: 15, Sz: 1}},
+	{Op: 'R', K: 0},
+	{Op: 'G', K: 21},
+	{Op: 'R', K: 35},
+	{Op: 'P', K: 16, V: CVal{ID: 16, Sz: 1}},
+	{Op: 'R', K: 10},
+	{Op: 'R', K: 1},
+	{Op: 'R', K: 6},
+	{Op: 'G', K: 31},
+	{Op: 'R', K: 28},
+	{Op: 'G', K: 4},
+	{Op: 'R', K: 27},
+	{Op: 'R', K: 30},
+	{Op: 'R', K: 0},
+	{Op: 'G', K: 21},
+	{Op: 'R', K: 11},
+	{Op: 'R', K: 16},
+	{Op: 'R', K: 28},
+	{Op: 'P', K: 8, V: CVal{ID: 17, Sz: 1}},
+	{Op: 'P', K: 12, V: CVal{ID: 18, Sz: 1}},
+	{Op: 'P', K: 17, V: CVal{ID: 19, Sz: 1}},
+	{Op: 'P', K: 3, V: CVal{ID: 20, Sz: 1}},
+	{Op: 'P', K: 13, V: CVal{ID: 21, Sz: 1}},
+	{Op: 'P', K: 20, V: CVal{ID: 22, Sz: 1}},
+	{Op: 'P', K: 12, V: CVal{ID: 23, Sz: 1}},
+	{Op: 'P', K: 15, V: CVal{ID: 24, Sz: 1}},
+	{Op: 'P', K: 9, V: CVal{ID: 25, Sz: 1}},
+	{Op: 'P', K: 7, V: CVal{ID: 26, Sz: 1}},
+	{Op: 'P', K: 7, V: CVal{ID: 27, Sz: 1}},
+	{Op: 'P', K: 1, V: CVal{ID: 28, Sz: 1}},
+}
+
 func runC08(c *fw.Ctx) {
+	if c.Block == 0 && c.Begin(1<<21) {
+		_, viol := c08both(c, c08f1cfg, c08f1witness)
+		if viol {
+			c.Add("f1_witness_still_fails", 1)
+		} else {
+			c.Add("f1_witness_no_longer_fails", 1)
+			c.Note("the recorded F1 witness history no longer violates C08 on this tree")
+		}
+	}
+	c08exhaustive(c, 1<<20)
 	n := c.Pick(2500, 40000)
 	for k := 0; k < n; k++ {
 		if !c.Begin(k) {
